@@ -944,3 +944,66 @@ Section glue_calc.
       rewrite (S2 i Hne) in Ho. eapply FR; [right; exact Hi|exact Ho].
   Qed.
 End glue_calc.
+
+(* ================================================================== (5) C11 offsets_exact o C15 references *)
+
+(* The composed unit body.  Unit::write runs gcalc from an all-zero table and hands its result to the write pass
+   (wc_entries / wc_codes).  Then there is ONE UnitWr tree `d` — the composed tree with every Expression
+   instantiated under the complete table (xrel) — on which UnitWr's calculate_offsets and write produce the very
+   same state and the very same output, so every C11 theorem applies to the composed output; in particular
+   offsets_exact: the table under which the expressions were written (cx_uo cx) assigns to every entry of the tree
+   the position at which its DIE was emitted. *)
+Theorem glue_offsets_exact_lemma dbg cx g st0 st ops fx :
+  gcalc dbg (wc_enc cx) (wc_be cx) (wc_lpv cx) (wc_unit_off cx) g st0 = Ok st ->
+  wc_entries cx = cs_entries st -> wc_codes cx = cs_codes st ->
+  gwrite_die dbg cx g (cs_off st0) = Ok (ops, fx) ->
+  NoDup (gdie_ids g) -> gdie_ok g ->
+  (forall j y, nth_error (cs_entries st0) j = Some y -> y = 0) ->
+  cs_off st0 + ops_len ops < 2 ^ 64 ->
+  exists d,
+    xrel dbg cx g d /\ calc dbg (wc_enc cx) (wc_lpv cx) d st0 = Ok st /\ write_die dbg cx d (cs_off st0) = Ok ops /\
+    die_expr_ok d /\ die_ids d = gdie_ids g /\
+    cs_off st = cs_off st0 + ops_len ops /\
+    map fst (ops_marks (cs_off st0) ops) = gdie_ids g /\
+    (forall i p, In (i, p) (ops_marks (cs_off st0) ops) -> nth_error (wc_entries cx) i = Some p).
+Proof.
+  intros HC He Hc HW ND OK Z B.
+  destruct (gwrite_die_sim dbg cx g _ _ _ HW OK B) as [d [X W]].
+  assert (C : calc dbg (wc_enc cx) (wc_lpv cx) d st0 = Ok st).
+  { apply (gcalc_sim dbg cx (wc_lpv cx) g st0 st HC).
+    - rewrite He. intros i o H _. exact H.
+    - exact ND.
+    - intros i o _ H. eapply Z. exact H.
+    - exact X. }
+  assert (XO := xrel_expr_ok _ _ _ _ X). assert (XI := xrel_ids _ _ _ _ X).
+  destruct (offsets_exact_lemma dbg cx d st0 st ops C Hc W ltac:(rewrite XI; exact ND) XO B) as [A1 [A2 A3]].
+  exists d. rewrite He. repeat split; try assumption. rewrite <- XI. exact A2.
+Qed.
+
+(* what a typed operation / call / parameter_ref of an expression written under that table embeds (C15 normal_form:
+   `entry_offset dbg (Some (cx_uo cx)) en`): the unit-relative position of the target's DIE ... *)
+Lemma entry_offset_mark dbg cx en p :
+  nth_error (wc_entries cx) (N.to_nat en) = Some p -> p <> 0 -> wc_unit_off cx <= p ->
+  OW.entry_offset dbg (Some (cx_uo cx)) en = Ok (p - wc_unit_off cx).
+Proof.
+  intros H Hp Hu. rewrite OD.entry_offset_cases. cbn [cx_uo ouo OW.uo_entries OW.uo_unit].
+  rewrite nth_N_nth_error, H. destruct (p =? 0) eqn:E; [apply N.eqb_eq in E; contradiction|].
+  apply chk_sub_ok. exact Hu.
+Qed.
+
+(* ... and for an entry of the arena that is not in the written tree (deleted, or reserved and never added): the
+   forward-reference error, never bytes *)
+Lemma entry_offset_orphan dbg e be lpv uoff g st0 st en :
+  gcalc dbg e be lpv uoff g st0 = Ok st ->
+  (forall j y, nth_error (cs_entries st0) j = Some y -> y = 0) ->
+  ~ In (N.to_nat en) (gdie_ids g) -> (N.to_nat en < length (cs_entries st0))%nat ->
+  OW.entry_offset dbg (Some (ouo uoff (cs_entries st))) en = Err WUnsupportedExpressionForwardReference.
+Proof.
+  intros HC Z Hn Hl.
+  set (cx := mkWcx e be 0 uoff [] [] None [] [] [] [] lpv).
+  destruct (gcalc_frame dbg cx lpv g st0 st HC) as [_ [_ F]]. destruct (F _ Hn) as [E _].
+  rewrite OD.entry_offset_cases. cbn [ouo OW.uo_entries OW.uo_unit]. rewrite nth_N_nth_error, E.
+  destruct (nth_error (cs_entries st0) (N.to_nat en)) as [y|] eqn:Ey.
+  - rewrite (Z _ _ Ey). reflexivity.
+  - apply nth_error_None in Ey. lia.
+Qed.
